@@ -491,7 +491,10 @@ class HistogramND(HistogramBase):
         # TODO: inplace
         new_one = self.copy()
         axis_id = self._get_axis(axis)
-        new_one._frequencies = np.cumsum(new_one.frequencies, axis_id)
+        cumulative = np.cumsum(new_one.frequencies, axis_id)
+        # numpy accumulates small integer types in a wider one; keep dtype and array in agreement
+        new_one._coerce_dtype(cumulative.dtype)
+        new_one._frequencies = cumulative.astype(new_one.dtype)
         return new_one
 
     def projection(self, *axes: Axis, **kwargs) -> HistogramBase:
